@@ -143,6 +143,15 @@ fn stream_adler(input: &[u8], level: i32, chunk: usize, room: usize, wbits: i32,
                 miniz_oxide_c_api::mz_deflateEnd(&mut zs);
                 return Err(format!("mz_stream.adler = {:#x} after mz_deflate consumed {} bytes in total, Adler-32 of the consumed input is {:#x}", o.adler, ip, want));
             }
+            if n % 3 == 1 {
+                // a call the shim rejects (flush value 9) produces and consumes nothing: the field still
+                // holds the checksum of the input consumed so far
+                let rej = capi::stream_call(&mut zs, false, input, ip, 0, room, 9, Place::End)?;
+                if rej.ret >= 0 || rej.adler != want {
+                    miniz_oxide_c_api::mz_deflateEnd(&mut zs);
+                    return Err(format!("after a rejected mz_deflate call (flush 9, returned {}) mz_stream.adler = {:#x}; Adler-32 of the {} bytes consumed so far is {:#x}", rej.ret, rej.adler, ip, want));
+                }
+            }
             if o.ret == 1 {
                 break;
             }
@@ -156,6 +165,9 @@ fn stream_adler(input: &[u8], level: i32, chunk: usize, room: usize, wbits: i32,
             }
         }
         miniz_oxide_c_api::mz_deflateEnd(&mut zs);
+        if zs.adler as u32 != adler32_def(1, input) {
+            return Err(format!("after mz_deflateEnd mz_stream.adler = {:#x}; Adler-32 of the input is {:#x}", zs.adler, adler32_def(1, input)));
+        }
         // inflate side: the usual MZ_NO_FLUSH loop, and (pass 1) a header-only first call followed by
         // MZ_FINISH calls - a Finish call that runs out of room returns MZ_BUF_ERROR after delivering
         // bytes, and the field must be up to date at that return too
